@@ -419,3 +419,158 @@ func TestC16Aliasing(t *testing.T) {
 		})
 	})
 }
+
+// ---- large vectors: the sizes at which the implementation itself changes behaviour (capacity hints and the wire limit
+// are 65535 entries; Merge, Compare and Increment have no documented limit). The laws are the same, the reference is
+// the same pointwise definition; ids and counters are a function of drawn parameters, not drawn one by one.
+
+func largeSpec(n, off int, salt uint64, width uint64) spec {
+	s := make(spec, n)
+	for i := 0; i < n; i++ {
+		id := off + i
+		x := (uint64(id)+1)*0x9E3779B97F4A7C15 ^ salt
+		x ^= x >> 29
+		x *= 0xBF58476D1CE4E5B9
+		x ^= x >> 32
+		s[fmt.Sprintf("n%06d", id)] = x % width
+	}
+	return s
+}
+
+func refCompareAny(a, b spec) cluster.VersionOrder {
+	less, greater := false, false
+	for n, x := range a {
+		y := b[n]
+		less, greater = less || x < y, greater || x > y
+	}
+	for n, y := range b {
+		if _, ok := a[n]; !ok && y > 0 {
+			less = true
+		}
+	}
+	switch {
+	case less && greater:
+		return cluster.VersionConcurrent
+	case less:
+		return cluster.VersionBefore
+	case greater:
+		return cluster.VersionAfter
+	}
+	return cluster.VersionEqual
+}
+
+// firstDiff compares a real vector with a spec entry by entry (Get semantics: absent = 0).
+func firstDiff(v cluster.VersionVector, want spec) string {
+	for n, c := range want {
+		if got := v.Get(n); got != c {
+			return fmt.Sprintf("%s: %d, expected %d", n, got, c)
+		}
+	}
+	for _, e := range v.SortedEntries() {
+		if _, ok := want[e.Node]; !ok && e.Count != 0 {
+			return fmt.Sprintf("%s: %d, expected absent", e.Node, e.Count)
+		}
+	}
+	return ""
+}
+
+func TestC16Large(t *testing.T) {
+	sizes := []int{40000, 65535, 32768, 65534, 30000, 1000, 1}
+	rapid.Check(t, func(rt *rapid.T) {
+		na := rapid.SampledFrom(sizes).Draw(rt, "na")
+		nb := rapid.SampledFrom(sizes).Draw(rt, "nb")
+		nc := rapid.SampledFrom([]int{1, 1000, 40000}).Draw(rt, "nc")
+		// b's id range relative to a's: disjoint, overlapping by one, by half, identical start
+		offB := rapid.SampledFrom([]int{na, na - 1, na / 2, 0}).Draw(rt, "offB")
+		offC := rapid.SampledFrom([]int{0, na + nb, na / 3}).Draw(rt, "offC")
+		width := rapid.SampledFrom([]uint64{3, 2, 1000, 1 << 40}).Draw(rt, "width") // small widths: many ties and zeros
+		salt := rapid.Uint64().Draw(rt, "salt")
+		sa, sb, sc := largeSpec(na, 0, salt, width), largeSpec(nb, offB, salt+1, width), largeSpec(nc, offC, salt+2, width)
+		if rapid.Bool().Draw(rt, "bDominates") {
+			for n, c := range sa { // b >= a on a's ids it has: comparable pairs
+				if cur, ok := sb[n]; ok && cur < c {
+					sb[n] = c
+				}
+			}
+		}
+		cs := fmt.Sprintf("na=%d nb=%d nc=%d offB=%d offC=%d width=%d salt=%d (ids n%%06d, counters = mix(id,salt) %% width)", na, nb, nc, offB, offC, width, salt)
+		f := &failer{t: rt, cs: cs}
+		a, b, c := fromWire(rt, sa), fromWire(rt, sb), fromWire(rt, sc)
+		ref := refMerge(sa, sb)
+		labels := []string{"large"}
+		if len(ref) > 65535 {
+			labels = append(labels, "union>65535")
+		}
+		// Compare
+		for _, p := range []struct {
+			n      string
+			x, y   cluster.VersionVector
+			sx, sy spec
+		}{{"a,b", a, b, sa, sb}, {"b,a", b, a, sb, sa}, {"a,c", a, c, sa, sc}} {
+			if got, want := p.x.Compare(p.y), refCompareAny(p.sx, p.sy); got != want {
+				f.fail("compare|pointwise", "large vectors: Compare(%s) = %s, pointwise definition gives %s", p.n, ordName(got), ordName(want))
+			}
+		}
+		// Merge
+		m, m2 := a.Merge(b), b.Merge(a)
+		if d := firstDiff(m, ref); d != "" {
+			f.fail("merge|pointwise-max", "large vectors (union of %d ids): a.Merge(b) differs from the pointwise maximum at %s", len(ref), d)
+		}
+		if d := firstDiff(m2, ref); d != "" {
+			f.fail("merge|commutative", "large vectors (union of %d ids): b.Merge(a) differs from the pointwise maximum at %s", len(ref), d)
+		}
+		if !m.Equal(m2) {
+			f.fail("merge|commutative", "large vectors: a.Merge(b) and b.Merge(a) are not Equal")
+		}
+		if !leq(a.Compare(m)) || !leq(b.Compare(m)) {
+			f.fail("merge|upper-bound", "large vectors: the merge is not >= both arguments (a:%s b:%s)", ordName(a.Compare(m)), ordName(b.Compare(m)))
+		}
+		if got := m.Merge(m); !got.Equal(m) || got.Size() != m.Size() {
+			f.fail("merge|idempotent", "large vectors: m.Merge(m) is not m (sizes %d, %d)", got.Size(), m.Size())
+		}
+		l, r := m.Merge(c), a.Merge(b.Merge(c))
+		if !l.Equal(r) {
+			f.fail("merge|associative", "large vectors: (a+b)+c and a+(b+c) are not Equal")
+		}
+		if d := firstDiff(l, refMerge(ref, sc)); d != "" {
+			f.fail("merge|pointwise-max", "large vectors: (a+b)+c differs from the pointwise maximum at %s", d)
+		}
+		// Increment on the big result
+		node := fmt.Sprintf("n%06d", rapid.IntRange(0, na+nb).Draw(rt, "incNode"))
+		if inc, err := m.Increment(node); err != nil {
+			f.fail("increment|error", "large vectors: Increment(%s) failed: %v", node, err)
+		} else if inc.Compare(m) != cluster.VersionAfter || inc.Get(node) != ref[node]+1 {
+			f.fail("increment|strictly-after", "large vectors: Increment(%s) compares %s to its input, counter %d -> %d", node, ordName(inc.Compare(m)), ref[node], inc.Get(node))
+		}
+		// serialisation: up to the documented limit every vector survives; beyond it the writer may refuse, it may not alter
+		for _, p := range []struct {
+			n string
+			v cluster.VersionVector
+			s spec
+		}{{"a", a, sa}, {"a+b", m, ref}} {
+			w := messages.NewWriter()
+			if err := cluster.WriteVersionVector(w, p.v); err != nil {
+				if p.v.Size() <= 65535 {
+					f.fail("wire|write", "large vectors: WriteVersionVector(%s) with %d entries: %v", p.n, p.v.Size(), err)
+				}
+				continue
+			}
+			back, err := cluster.ReadVersionVector(messages.NewReader(w.Bytes()))
+			if err != nil {
+				f.fail("wire|read", "large vectors: ReadVersionVector(Write(%s)) with %d entries: %v", p.n, p.v.Size(), err)
+			} else if d := firstDiff(back, p.s); d != "" || back.Size() != p.v.Size() {
+				f.fail("wire|roundtrip", "large vectors: %s changed on the wire (%d -> %d entries) %s", p.n, p.v.Size(), back.Size(), d)
+			}
+		}
+		// operands untouched
+		if d := firstDiff(a, sa); d != "" || a.Size() != len(sa) {
+			f.fail("no-mutation", "large vectors: a changed (%s, size %d -> %d)", d, len(sa), a.Size())
+		}
+		if d := firstDiff(b, sb); d != "" || b.Size() != len(sb) {
+			f.fail("no-mutation", "large vectors: b changed (%s, size %d -> %d)", d, len(sb), b.Size())
+		}
+		vstat.Case(vstat.Hash(cs), len(ref) >= 32768, labels, func() any {
+			return map[string]any{"case": cs, "union": len(ref), "compare(a,b)": ordName(a.Compare(b))}
+		})
+	})
+}
